@@ -432,6 +432,82 @@ theorem predecessor_closed (n o r : Name) (p : Bool) (hn : WfName n)
         · exact relativize_closed _ _ _ hr'wf h
         · simp at h; exact h ▸ hr'wf
 
+
+/-! ### `to_wire(origin=…)` / `to_digestable(origin)` for relative names -/
+
+theorem toWire_length (m : Name) : (toWire m).length = wireLen m := by
+  induction m with
+  | nil => simp [toWire, wireLen]
+  | cons l rest ih =>
+    have : toWire (l :: rest) = (l.length :: l) ++ toWire rest := by simp [toWire]
+    rw [this]; simp [wireLen, ih] at *; omega
+
+theorem rel_labels_nonempty (n : Name) (hn : WfName n) (hr : isAbs n = false) : ∀ l ∈ n, l ≠ [] := by
+  intro l hl hnil
+  subst hnil
+  by_cases hne : n = []
+  · subst hne; simp at hl
+  · have hdl := List.dropLast_concat_getLast hne
+    rw [← hdl] at hl
+    rcases List.mem_append.mp hl with h | h
+    · exact hn.2.2 [] h rfl
+    · simp at h
+      have : n.getLast? = some [] := by rw [List.getLast?_eq_some_getLast hne, ← h]
+      unfold isAbs at hr; rw [this] at hr; simp at hr
+
+/-- The bytes-returning wire form of a relative name against an absolute origin (`Name.to_wire(origin=…)`,
+hence record hashing/equality and `to_digestable`) is the uncompressed encoding of the derelativized name:
+it decodes to exactly the labels of the name followed by the labels of the origin, byte-identical (no case
+folding of either part unless canonical form was asked for), and it is refused with NameTooLong exactly
+when that name would exceed 255 octets. -/
+theorem toWireO_roundtrip (n o : Name) (hn : WfName n) (hr : isAbs n = false) (ho : WfName o)
+    (hoa : isAbs o = true) :
+    (wireLen (n ++ o) ≤ Consts.maxName →
+      ∃ out, toWireO n (some o) false = .ok out ∧ fromWire out 0 = .ok (n ++ o, out.length)) ∧
+    (wireLen (n ++ o) > Consts.maxName → toWireO n (some o) false = .error .nameTooLong) := by
+  have henc : ∀ m : Name, (m.flatMap fun l => l.length :: l) = toWire m := by
+    intro m; rfl
+  have hlen : (toWire n ++ toWire o).length = wireLen (n ++ o) := by
+    rw [← toWire_append, toWire_length]
+  constructor
+  · intro hle
+    refine ⟨toWire (n ++ o), ?_, ?_⟩
+    · simp only [toWireO, hr, Bool.false_eq_true, if_false, hoa, if_true]
+      have h1 : ¬ (toWire n ++ toWire o).length > Consts.maxName := by rw [hlen]; omega
+      rw [henc, henc, if_neg h1, toWire_append]
+    · -- n ++ o is a well-formed absolute name
+      have hone : o ≠ [] := by intro e; subst e; simp [isAbs] at hoa
+      have hwf : WfName (n ++ o) := by
+        refine ⟨?_, hle, ?_⟩
+        · intro l hl
+          rcases List.mem_append.mp hl with h | h
+          · exact hn.1 l h
+          · exact ho.1 l h
+        · intro l hl
+          have : (n ++ o).dropLast = n ++ o.dropLast := List.dropLast_append_of_ne_nil hone
+          rw [this] at hl
+          rcases List.mem_append.mp hl with h | h
+          · exact rel_labels_nonempty n hn hr l h
+          · exact ho.2.2 l h
+      have habs : isAbs (n ++ o) = true := by
+        unfold isAbs at hoa ⊢
+        have : (n ++ o).getLast? = o.getLast? := by
+          rw [List.getLast?_append]
+          cases h : o.getLast? with
+          | none => simp [List.getLast?_eq_none_iff] at h; exact absurd h hone
+          | some x => simp
+        rw [this]; exact hoa
+      have := fromWire_toWire (n ++ o) hwf habs [] []
+      simpa using this
+  · intro hgt
+    simp only [toWireO, hr, Bool.false_eq_true, if_false, hoa, if_true]
+    have h1 : (toWire n ++ toWire o).length > Consts.maxName := by rw [hlen]; exact hgt
+    rw [henc, henc, if_pos h1]
+
+/-- non-vacuity: `www` against `Example.` -/
+example : WfName [[119, 119, 119]] ∧ isAbs [[119, 119, 119]] = false ∧ WfName [[69, 120], []] ∧ isAbs [[69, 120], []] = true := by
+  refine ⟨⟨?_, ?_, ?_⟩, by decide, ⟨?_, ?_, ?_⟩, by decide⟩ <;> decide
+
 /-- non-vacuity for the wire theorems: `www.Example.` is absolute and well formed -/
 example : WfName [[119, 119, 119], [69, 120], []] ∧ isAbs [[119, 119, 119], [69, 120], []] = true := by
   constructor
